@@ -31,7 +31,7 @@ def plan(tier):
 
 
 def n_cases(tier):
-    return 5000 if tier == 'thorough' else 700
+    return 20000 if tier == 'thorough' else 700
 
 
 ASYNC_HOLDERS = ['buffer', 'delay', 'rate_limit', 'map_async', 'timed_window', 'timed_window_unique',
